@@ -1,5 +1,3 @@
-import os
-
 from trashcli.put.fs.fs import RealPathFs
 
 
@@ -10,6 +8,7 @@ class TrashDirVolumeReader:
         self.fs = fs
 
     def volume_of_trash_dir(self, trash_dir_path):
-        norm_trash_dir_path = os.path.normpath(trash_dir_path)
+        # not normalised lexically first: 'link/../Trash' is not 'Trash' when
+        # link is a symlink to a directory elsewhere
         return self.fs.volume_of(
-            self.fs.realpath(norm_trash_dir_path))
+            self.fs.realpath(trash_dir_path))
